@@ -12,7 +12,7 @@ struct COps : TaskOps {
   llb_task_interface_t ti;
   explicit COps(llb_task_interface_t ti) : ti(ti) {}
   static llb_data_t d(const std::string& s) { llb_data_t x; x.length = s.size(); x.data = (const uint8_t*)s.data(); return x; }
-  void request(const std::string& key, uintptr_t id) override { llb_data_t k = d(key); llb_buildengine_task_needs_input(ti, &k, id); }
+  void request(const std::string& key, uintptr_t id) override { llb_data_t k = d(key); llb_buildengine_task_needs_input(ti, &k, wireInputID(id)); }
   void requestSingleUse(const std::string& key, uintptr_t id) override { request(key, id); /* not expressible in the C interface; never generated for it */ }
   void mustFollow(const std::string& key) override { llb_data_t k = d(key); llb_buildengine_task_must_follow(ti, &k); }
   void discovered(const std::string& key) override { llb_data_t k = d(key); llb_buildengine_task_discovered_dependency(ti, &k); }
@@ -36,7 +36,7 @@ struct CFront : EngineFront {
     td.context = new CTaskCtx(*rc->cx, rc->k);
     td.destroy_context = [](void* c) { delete (CTaskCtx*)c; };
     td.start = [](void* c, void*, llb_task_interface_t ti) { COps o(ti); ((CTaskCtx*)c)->core.onStart(o); };
-    td.provide_value = [](void* c, void*, llb_task_interface_t ti, uintptr_t id, const llb_data_t* v) { COps o(ti); ((CTaskCtx*)c)->core.onProvide(o, id, nullptr, s(v)); };
+    td.provide_value = [](void* c, void*, llb_task_interface_t ti, uintptr_t id, const llb_data_t* v) { COps o(ti); ((CTaskCtx*)c)->core.onProvide(o, unwireInputID(id), nullptr, s(v)); };
     td.inputs_available = [](void* c, void*, llb_task_interface_t ti) { COps o(ti); ((CTaskCtx*)c)->core.onInputsAvailable(o); };
     return llb_task_create(td);
   }
